@@ -114,6 +114,7 @@ def check(ctx):
     narrowing(ctx, repo)
     announced(ctx, repo, itf)
     exact_comparisons(ctx, repo, itf)
+    joint_assessment(ctx, repo)
 
 
 def must_call(ctx, repo, itf):
@@ -363,6 +364,53 @@ def narrowing(ctx, repo):
     ctx.ob("F3", ok=ok, distinct="unsupported-type")
     if not ok:
         ctx.violation("F3", "unsupported-type|accepted", gt.loc(fd), "an unsupported internal type no longer raises")
+
+
+def joint_assessment(ctx, repo):
+    """F7: spouses with contradictory joint-assessment flags are rejected whichever of them comes first"""
+    ctx.rule("F7", "in the tax-unit scan the contradiction test (flag of the person != flag of the already-seen spouse) is guarded only by 'spouse already seen', not by the value of either flag: the rejection is symmetric in the two spouses")
+    g = repo.module("groupings.py")
+    gf = repo.grouping_funcs.get("sn_id")
+    if gf is None:
+        raise AnalysisError("grouping sn_id vanished")
+    fd = gf[1]
+    flag_param = [a.arg for a in fd.args.args if "veranlagt" in a.arg]
+    if len(flag_param) != 1:
+        raise AnalysisError("sn_id: joint-assessment flag parameter not recognised")
+    raises = [n for n in ast.walk(fd) if isinstance(n, ast.Raise)]
+    if not raises:
+        ctx.ob("F7", ok=False, distinct="raise")
+        ctx.violation("F7", "sn_id|no-raise", g.loc(fd) + f" {gf[0]}", "the tax-unit scan no longer rejects spouses with contradictory joint-assessment flags")
+        return
+    # names derived from the flag column (current person's flag, stored spouse flag)
+    derived = set(flag_param)
+    for _ in range(3):
+        for n in ast.walk(fd):
+            if isinstance(n, ast.Assign) and any(isinstance(x, ast.Name) and x.id in derived for x in ast.walk(n.value)):
+                for t in n.targets:
+                    if isinstance(t, ast.Name):
+                        derived.add(t.id)
+                    elif isinstance(t, ast.Subscript) and isinstance(t.value, ast.Name):
+                        derived.add(t.value.id)
+    parents = {}
+    for n in ast.walk(fd):
+        for c in ast.iter_child_nodes(n):
+            parents[c] = n
+    for r in raises:
+        guards = []
+        n = r
+        while n in parents:
+            p = parents[n]
+            if isinstance(p, ast.If):
+                guards.append(p.test)
+            n = p
+        flagtests = [t for t in guards if any(isinstance(x, ast.Name) and x.id in derived for x in ast.walk(t))]
+        # exactly one guard may look at the flags, and it must compare two flag values with != / ==
+        ok = len(flagtests) == 1 and isinstance(flagtests[0], ast.Compare) and len(flagtests[0].ops) == 1 and isinstance(flagtests[0].ops[0], (ast.NotEq, ast.Eq, ast.IsNot, ast.Is)) and all(any(isinstance(x, ast.Name) and x.id in derived for x in ast.walk(side)) for side in (flagtests[0].left, flagtests[0].comparators[0]))
+        ctx.ob("F7", ok=ok, distinct=r.lineno)
+        if not ok:
+            extra = [ast.unparse(t) for t in flagtests]
+            ctx.violation("F7", "sn_id|asymmetric-guard", g.loc(r) + f" {gf[0]}", f"the contradiction is raised only under {extra}: a couple is rejected or accepted depending on which spouse is listed first / which of them carries the flag")
 
 
 def _mentions_only_0_1(test_text):
